@@ -8,7 +8,7 @@ package main
 //@ import "github.com/tstranex/u2f"
 //@ import "github.com/duo-labs/webauthn/webauthn"
 //@ import "github.com/duo-labs/webauthn/protocol"
-//@ use strings nethttp fmt oauth2 neturl time ssh crypto errors x509 keymasterd_jose pwauth cfssl math
+//@ use strings nethttp fmt oauth2 neturl time ssh crypto errors x509 keymasterd_jose pwauth cfssl math keymasterd_rate
 
 // ---- C17: post-login redirects stay on the keymaster origin ------------------------------------
 //@ pure func noControlBytes(s string) bool = (forallIdx j int :: 0 <= j && j < len(s) ==> s[j] >= 0x20 && s[j] != 0x7f)
@@ -137,7 +137,6 @@ package main
 //@   assume ret1 == nil ==> ret0 == automationUser(state, username)
 //@ func (*RuntimeState).checkPasswordAttemptLimit
 //@   inline always
-//@   ghostset ghostPwToken bool = true if ret0 == nil
 //@ func checkUserPassword
 //@   requires ghostPwToken                                                                                #C14.limiter-first @C14
 //@   ghostset ghostPwToken bool = false
